@@ -41,16 +41,31 @@ def _plan_reads(chunk, plan):
 
 def _read(R, data, chunks, plans):
     r = R(data)
-    r.chunked_reading_mode = True
+    broken = ""
+    try:
+        r.chunked_reading_mode = True
+    except Exception as e:          # switching the mode / moving to the next chunk cannot fail in the model: an observation, not a crash
+        broken = type(e).__name__
     out = []
     for i, pl in enumerate(plans):
         ch = chunks[i] if i < len(chunks) else []
         rets = []
         for rc in _plan_reads(ch, pl):
+            # an exception is recorded as a value no read can return (TLC compares like with like: an integer for get_byte, a sequence otherwise)
+            bad = -7777 if rc["op"] == "get_byte" else [-7777]
+            if broken:
+                rets.append(bad)
+                continue
             ret, exc = do_read(r, rc)
-            rets.append(ret if not exc else ["EXC", exc])
+            rets.append(ret if not exc else bad)
+        if broken and not rets:
+            rets.append([-7777])
         out.append(rets)
-        r.next_chunk()
+        if not broken:
+            try:
+                r.next_chunk()
+            except Exception as e:
+                broken = type(e).__name__
     return out
 
 
